@@ -10,6 +10,7 @@ import (
 	"net"
 	"net/netip"
 	"strings"
+	"sync"
 	"sync/atomic"
 	"testing"
 	"time"
@@ -140,26 +141,62 @@ func (v *recVerifier) VerifyParsedClientCertificate(chain []*x509.Certificate) (
 type c40Peer struct {
 	name  string
 	addr  net.Addr   // nil: no peer information in the context at all
-	ip    netip.Addr // identity of the requester (unmapped, zone-less); invalid if the peer has none
-	noCtx bool
+	ip    netip.Addr // host address of the requester (unmapped, zone-less); invalid if the peer address carries none
+	hasIA bool       // the peer address is a SCION address: it declares the ISD-AS the requester is in
+	ia    addr.IA    // host addresses are only unique inside an AS: (ia, ip) is the requester, not ip alone
+	// unreal: a *net.TCPAddr without IP cannot occur on an accepted connection; grants are counted, not judged
+	unreal bool
+	noCtx  bool
 }
+
+// plainAddr is a net.Addr implementation the service has never heard of, carrying an IP address and a port.
+type plainAddr struct{ ap netip.AddrPort }
+
+func (a plainAddr) Network() string { return "tcp" }
+func (a plainAddr) String() string  { return a.ap.String() }
 
 func c40Peers() []c40Peer {
 	ip4 := netip.MustParseAddr("10.0.0.1")
+	ip4b := netip.MustParseAddr("10.0.0.2")
 	ip6 := netip.MustParseAddr("2001:db8::1")
 	ll := netip.MustParseAddr("fe80::1")
-	return []c40Peer{
+	udp := func(ip net.IP) *net.UDPAddr { return &net.UDPAddr{IP: ip, Port: 40000} }
+	local := addr.MustParseIA("1-ff00:0:110")
+	foreign := addr.MustParseIA("1-ff00:0:111")
+	otherISD := addr.MustParseIA("2-ff00:0:110")
+	ps := []c40Peer{
 		{name: "tcp4", addr: &net.TCPAddr{IP: net.IP{10, 0, 0, 1}, Port: 40000}, ip: ip4},
 		{name: "tcp4-in-16-byte-form", addr: &net.TCPAddr{IP: net.IPv4(10, 0, 0, 1), Port: 40000}, ip: ip4},
 		{name: "tcp6", addr: &net.TCPAddr{IP: net.ParseIP("2001:db8::1"), Port: 40000}, ip: ip6},
 		{name: "tcp6-zone", addr: &net.TCPAddr{IP: net.ParseIP("fe80::1"), Port: 40000, Zone: "eth0"}, ip: ll},
-		{name: "udp4", addr: &net.UDPAddr{IP: net.IP{10, 0, 0, 1}, Port: 40000}, ip: ip4},
-		{name: "scion-udp", addr: &snet.UDPAddr{IA: addr.MustParseIA("1-ff00:0:110"),
-			Host: &net.UDPAddr{IP: net.IP{10, 0, 0, 1}, Port: 40000}}, ip: ip4},
-		{name: "tcp-nil-ip", addr: &net.TCPAddr{Port: 40000}},
+		// other address types that carry an IP address but no ISD-AS
+		{name: "udp4", addr: udp(net.IP{10, 0, 0, 1}), ip: ip4},
+		{name: "ipaddr4", addr: &net.IPAddr{IP: net.IP{10, 0, 0, 1}}, ip: ip4},
+		{name: "unknown-addr-type-with-ip4", addr: plainAddr{netip.AddrPortFrom(ip4, 40000)}, ip: ip4},
+		{name: "unix-socket", addr: &net.UnixAddr{Name: "/run/cs.sock", Net: "unix"}},
+		// SCION addresses: the requester is (ISD-AS, host); the same host address exists in every AS
+		{name: "scion-udp-local-as", addr: &snet.UDPAddr{IA: local, Host: udp(net.IP{10, 0, 0, 1})}, ip: ip4, hasIA: true, ia: local},
+		{name: "scion-udp-foreign-as", addr: &snet.UDPAddr{IA: foreign, Host: udp(net.IP{10, 0, 0, 1})}, ip: ip4, hasIA: true, ia: foreign},
+		{name: "scion-udp-same-as-number-other-isd", addr: &snet.UDPAddr{IA: otherISD, Host: udp(net.IP{10, 0, 0, 1})}, ip: ip4,
+			hasIA: true, ia: otherISD},
+		{name: "scion-udp-wildcard-ia", addr: &snet.UDPAddr{IA: 0, Host: udp(net.IP{10, 0, 0, 1})}, ip: ip4, hasIA: true, ia: 0},
+		{name: "scion-udp6-foreign-as", addr: &snet.UDPAddr{IA: foreign, Host: udp(net.ParseIP("2001:db8::1"))}, ip: ip6, hasIA: true,
+			ia: foreign},
+		// the next hop (border router / last underlay hop) has the victim's address, the requester itself another one
+		{name: "scion-udp-foreign-as-nexthop-has-ip4", addr: &snet.UDPAddr{IA: foreign, Host: udp(net.IP{10, 0, 0, 2}),
+			NextHop: udp(net.IP{10, 0, 0, 1})}, ip: ip4b, hasIA: true, ia: foreign},
+		{name: "scion-udp-local-as-without-host", addr: &snet.UDPAddr{IA: local, NextHop: udp(net.IP{10, 0, 0, 1})}, hasIA: true, ia: local},
+		{name: "scion-svc-foreign-as", addr: &snet.SVCAddr{IA: foreign, SVC: addr.SvcCS, NextHop: udp(net.IP{10, 0, 0, 1})}, hasIA: true,
+			ia: foreign},
+		{name: "tcp-nil-ip", addr: &net.TCPAddr{Port: 40000}, unreal: true},
 		{name: "no-peer", noCtx: true},
 	}
+	return ps
 }
+
+// c40InLocalAS: is the requester a host of the local AS? A peer address without ISD-AS is an address of the AS-internal
+// IP network; a SCION peer address says which AS the requester is in.
+func c40InLocalAS(p c40Peer) bool { return !p.hasIA || p.ia == c40Local }
 
 // host strings for src_host / dst_host
 var c40HostStrs = []string{
@@ -214,6 +251,8 @@ type c40State struct {
 	granted    [6]atomic.Int64
 	denied     [6]atomic.Int64
 	grantedHH  [3]atomic.Int64 // host-host grants by side: src only, dst only, both
+	grantMu      sync.Mutex
+	grantsByKind map[string]int64 // requester kind -> RPC: keys handed out
 }
 
 const (
@@ -247,10 +286,18 @@ func (s *c40State) judge(rpc int, caseDesc func() map[string]any, p c40Peer, res
 		return
 	}
 	s.granted[rpc].Add(1)
-	if p.addr != nil && !p.ip.IsValid() {
+	s.grantMu.Lock()
+	s.grantsByKind[p.name+" -> "+name]++
+	s.grantMu.Unlock()
+	if p.unreal && rpc != rpcLevel1 {
 		// a TCP peer without an IP address does not occur on a real connection: recorded, not judged
 		s.nilIPGrant.Add(1)
 		return
+	}
+	// level 0/2/3 and intra-AS level 1 keys are bound to hosts of the local AS (level 1 requesters are identified by
+	// their certificate instead)
+	if unauth == "" && rpc != rpcLevel1 && !c40InLocalAS(p) {
+		unauth = "requester-is-not-a-host-of-the-local-as"
 	}
 	if unauth != "" {
 		d := caseDesc()
@@ -307,11 +354,13 @@ func valTimeOf(v c40Val) time.Time {
 func TestC40(t *testing.T) {
 	r := mc.NewRun(t, "C40", mc.Exploration)
 	r.Rule = "full product, per RPC of the real control/drkey/grpc.Server, of: src IA x dst IA over {local, remote, same AS in another ISD, 0; thorough: + wildcard-ISD / wildcard-AS} x " +
-		"src/dst host strings (requester, aliases, other hosts, service address, malformed) x requester address kind x " +
+		"src/dst host strings (requester, aliases, other hosts, service address, malformed) x requester address kind (TCP/UDP/IP/unknown-type/unix addresses, " +
+		"SCION UDP and SVC addresses in the local AS, a foreign AS, the same AS number in another ISD and ISD-AS 0, with the " +
+		"host IP in the host part or only in the next hop; no IP; no peer) x " +
 		"protocol id (generic, SCMP, niche, out-of-range) x val_time (valid, nil, invalid); level 1: x TLS auth info kind / " +
 		"certificate AS; secret value and intra-AS level 1: x all subsets of a 7-entry allow list. A case is distinct by its " +
 		"full tuple; non-trivial = a key was handed out"
-	s := &c40State{r: r}
+	s := &c40State{r: r, grantsByKind: map[string]int64{}}
 	if mc.Thorough() {
 		// wildcard ISD / wildcard AS variants of the local ISD-AS, more protocol ids
 		c40IAs = append(c40IAs, addr.MustParseIA("0-ff00:0:110"), addr.MustParseIA("1-0"))
@@ -508,11 +557,7 @@ func TestC40(t *testing.T) {
 						if a.ia == 0 || p.noCtx {
 							unauth = "no-authenticated-as"
 						}
-						pj := p
-						if pj.addr != nil && !pj.ip.IsValid() {
-							pj.ip = netip.MustParseAddr("192.0.2.1") // level 1 requesters are identified by certificate, not by IP
-						}
-						s.judge(rpcLevel1, desc, pj, resp, err, eng, unauth,
+						s.judge(rpcLevel1, desc, p, resp, err, eng, unauth,
 							c40Call{method: "DeriveLevel1", proto: drkey.Protocol(uint16(proto)), val: valTimeOf(v), src: c40Local, dst: a.ia})
 						if err == nil {
 							nontriv.Add(1)
@@ -627,6 +672,7 @@ func TestC40(t *testing.T) {
 	r.Extra["host_host_granted_by_side"] = map[string]int64{"src_side_only": s.grantedHH[0].Load(), "dst_side_only": s.grantedHH[1].Load(),
 		"both": s.grantedHH[2].Load()}
 	r.Extra["grants_to_tcp_peer_without_ip_not_judged"] = s.nilIPGrant.Load()
+	r.Extra["keys_handed_out_by_requester_kind_and_rpc"] = s.grantsByKind
 	r.Extra["requester_kinds"] = func() (o []string) {
 		for _, p := range peers {
 			o = append(o, p.name)
@@ -641,6 +687,9 @@ func TestC40(t *testing.T) {
 	r.Sample(map[string]any{"rpc": "DRKeyASHost", "dst_ia": c40IAs[2].String() + " (same AS number, other ISD)", "dst_host": "10.0.0.1",
 		"requester": "tcp4 10.0.0.1", "expected": "must be refused"})
 	r.Assumptions = []string{
+		"the requester is (ISD-AS, host address): a peer address without ISD-AS (TCP/UDP/IP address) is taken to be in the " +
+			"local AS (intra-AS IP network), a SCION peer address is in the AS it names; level 0/2/3 and intra-AS level-1 keys " +
+			"may only go to requesters in the local AS, whatever host address they have",
 		"a host string names the requester iff it parses as an IP address equal to the requester's, where IPv4-mapped IPv6 " +
 			"spelling and a zone suffix do not change the host; only 'key handed out => authorised' is judged (refusing an " +
 			"authorised request is counted as outcome, not as violation)",
